@@ -17,83 +17,139 @@ variable (gsp : Nat → Nat → Nat) (pmz : Nat → Nat → Nat → Nat → Nat)
 /-- calloc: an overflowing count*size returns NULL, whatever the allocator underneath would do -/
 theorem calloc_overflow (heap count size : Nat) (hc : count < 2^64) (hs : size < 2^64) (h : 2^64 ≤ count * size) :
     mi_heap_calloc gsp pmz gen heap count size = 0 := by
-  sorry
+  unfold mi_heap_calloc
+  simp [C06L.count_size_overflow_of_ge count size 1 hc hs h]
 
 /-- calloc: otherwise it is exactly a zeroing allocation of the product -/
 theorem calloc_exact (heap count size : Nat) (hc : count < 2^64) (hs : size < 2^64) (h : count * size < 2^64) :
     mi_heap_calloc gsp pmz gen heap count size = mi_heap_zalloc gsp pmz gen heap (count * size) := by
-  sorry
+  have _ := hc; have _ := hs
+  unfold mi_heap_calloc
+  simp [C06L.count_size_overflow_of_lt count size 1 h]
 
 theorem mallocn_overflow (heap count size : Nat) (hc : count < 2^64) (hs : size < 2^64) (h : 2^64 ≤ count * size) :
     mi_heap_mallocn gsp pmz gen heap count size = 0 := by
-  sorry
+  unfold mi_heap_mallocn
+  simp [C06L.count_size_overflow_of_ge count size 1 hc hs h]
 
 /-- reallocn: overflow returns NULL with an empty effect log (old block neither freed nor copied) -/
 theorem reallocn_overflow (heap p count size : Nat) (hc : count < 2^64) (hs : size < 2^64) (h : 2^64 ≤ count * size) :
     mi_heap_reallocn us gsp pmz gen heap p count size = (0, []) := by
-  sorry
+  unfold mi_heap_reallocn
+  simp [C06L.count_size_overflow_of_ge count size 1 hc hs h]
 
 theorem recalloc_overflow (heap p count size : Nat) (hc : count < 2^64) (hs : size < 2^64) (h : 2^64 ≤ count * size) :
     mi_heap_recalloc us gsp pmz gen heap p count size = (0, []) := by
-  sorry
+  unfold mi_heap_recalloc
+  simp [C06L.count_size_overflow_of_ge count size 1 hc hs h]
 
 theorem calloc_aligned_overflow (heap count size alignment offset : Nat) (hc : count < 2^64) (hs : size < 2^64) (h : 2^64 ≤ count * size) :
     mi_heap_calloc_aligned_at gsp rdf pmzd pm bs ps ng pmz gen pp us heap count size alignment offset = (0, []) := by
-  sorry
+  unfold mi_heap_calloc_aligned_at
+  simp [C06L.count_size_overflow_of_ge count size 1 hc hs h]
 
 theorem recalloc_aligned_overflow (heap p count size alignment offset : Nat) (hc : count < 2^64) (hs : size < 2^64) (h : 2^64 ≤ count * size) :
     mi_heap_recalloc_aligned_at us gsp pmz gen rdf pmzd pm bs ps ng pp heap p count size alignment offset = (0, []) := by
-  sorry
+  unfold mi_heap_recalloc_aligned_at
+  simp [C06L.count_size_overflow_of_ge count size 1 hc hs h]
 
 /-- reallocarray: overflow returns NULL, sets errno to ENOMEM (12) and does nothing else -/
 theorem reallocarray_overflow (p count size : Nat) (hc : count < 2^64) (hs : size < 2^64) (h : 2^64 ≤ count * size) :
     mi_reallocarray dh us gsp pmz gen p count size = (0, [("store:__errno_location", [12])]) := by
-  sorry
+  unfold mi_reallocarray mi_reallocn
+  simp [reallocn_overflow gsp pmz gen us dh p count size hc hs h]
 
 /-- aligned allocation: alignment 0 or not a power of two returns NULL before touching the heap -/
 theorem aligned_bad_alignment (heap size alignment offset zero : Nat) (ha : alignment < 2^64)
     (h : alignment = 0 ∨ alignment &&& (alignment - 1) ≠ 0) :
     mi_heap_malloc_zero_aligned_at gsp rdf pmzd pm bs ps ng pmz gen pp us heap size alignment offset zero = (0, []) := by
-  sorry
+  unfold mi_heap_malloc_zero_aligned_at
+  simp only [if_pos (C06L.bad_alignment alignment ha h)]
 
 /-- aligned allocation: a size above MI_MAX_ALLOC_SIZE returns NULL before touching the heap -/
 theorem aligned_oversize (heap size alignment offset zero : Nat) (hs : size < 2^64) (h : Gen.MI_MAX_ALLOC_SIZE < size) :
     mi_heap_malloc_zero_aligned_at gsp rdf pmzd pm bs ps ng pmz gen pp us heap size alignment offset zero = (0, []) := by
-  sorry
+  have h' : size > 281474976579584 := h
+  have h1 : ¬ ((size ≤ 1024) ∧ (alignment ≤ size)) := by omega
+  unfold mi_heap_malloc_zero_aligned_at mi_heap_malloc_zero_aligned_at_generic
+  simp only [if_neg h1, if_pos h']
+  split <;> simp
 
 /-- the generic allocation path refuses sizes above MI_MAX_ALLOC_SIZE (also after `size + padding` wrapped) -/
 theorem find_page_oversize (lh : Nat → Nat → Nat → Nat) (ff : Nat → Nat → Nat) (heap size ha : Nat) (hs : size < 2^64)
     (h : Gen.MI_MAX_ALLOC_SIZE < size) : mi_find_page lh ff heap size ha = 0 := by
-  sorry
+  have h' : size > 281474976579584 := h
+  rw [C06L.two64] at hs
+  have e : (size + 18446744073709551616 - 0) % 18446744073709551616 = size := by omega
+  have h1 : (size > 65536) ∨ (ha > 0) := Or.inl (by omega)
+  unfold mi_find_page
+  simp only [e, if_pos h1, if_pos h']
 
 /-- posix_memalign: invalid arguments give EINVAL (22), the out-parameter keeps its old value, no effect -/
 theorem posix_memalign_einval (p alignment size p_in : Nat) (ha : alignment < 2^64)
     (h : p = 0 ∨ alignment % 8 ≠ 0 ∨ alignment = 0 ∨ alignment &&& (alignment - 1) ≠ 0) :
     mi_posix_memalign dh gsp rdf pmzd pm bs ps ng pmz gen pp us p alignment size p_in = (22, p_in, []) := by
-  sorry
+  unfold mi_posix_memalign
+  by_cases hp : p = 0
+  · simp only [if_pos hp]
+  · by_cases h8 : alignment % 8 ≠ 0
+    · simp only [if_neg hp, if_pos h8]
+    · have hb : alignment = 0 ∨ alignment &&& (alignment - 1) ≠ 0 := by
+        rcases h with h | h | h | h
+        · exact absurd h hp
+        · exact absurd h h8
+        · exact Or.inl h
+        · exact Or.inr h
+      simp only [if_neg hp, if_neg h8, if_pos (C06L.bad_alignment alignment ha hb)]
 
 /-- posix_memalign: whenever it reports an error the out-parameter is unmodified; the codes are 0, EINVAL, ENOMEM -/
 theorem posix_memalign_error_keeps_out (p alignment size p_in : Nat) :
     let r := mi_posix_memalign dh gsp rdf pmzd pm bs ps ng pmz gen pp us p alignment size p_in
     (r.1 = 0 ∨ r.1 = 12 ∨ r.1 = 22) ∧ (r.1 ≠ 0 → r.2.1 = p_in) := by
-  sorry
+  unfold mi_posix_memalign
+  by_cases hp : p = 0
+  · simp [hp]
+  · by_cases h8 : alignment % 8 ≠ 0
+    · simp [hp, h8]
+    · by_cases hb : (alignment = 0) ∨ (¬ ((_mi_is_power_of_two alignment) ≠ 0))
+      · simp only [if_neg hp, if_neg h8, if_pos hb]; simp
+      · simp only [if_neg hp, if_neg h8, if_neg hb]
+        split <;> simp
 
 /-- pvalloc: a size that overflows when rounded up to the page size returns NULL with no effect -/
 theorem pvalloc_overflow (size : Nat) (hps : 0 < ps) (hps2 : ps < 2^64) (h : 2^64 - 1 - ps ≤ size) :
     mi_pvalloc ps dh gsp rdf pmzd pm bs ng pmz gen pp us size = (0, []) := by
-  sorry
+  rw [C06L.two64] at hps2 h
+  have hc : size ≥ (18446744073709551615 + 18446744073709551616 - ps) % 18446744073709551616 := by omega
+  unfold mi_pvalloc
+  simp only [if_pos hc]
 
 /-- a failing realloc (NULL result) has an empty effect log: the old block is neither freed, copied from, nor zeroed -/
 theorem realloc_fail_keeps_old (heap p newsize zero : Nat)
     (h : (_mi_heap_realloc_zero us gsp pmz gen heap p newsize zero).1 = 0) :
     (_mi_heap_realloc_zero us gsp pmz gen heap p newsize zero).2 = [] := by
-  sorry
+  by_cases hin : newsize ≤ us p 0 ∧ us p 0 / 2 ≤ newsize ∧ 0 < newsize
+  · rw [C06L.realloc_zero_inplace us gsp pmz gen heap p newsize zero hin]
+  · by_cases hnew : mi_heap_malloc gsp pmz gen heap newsize = 0
+    · rw [C06L.realloc_zero_fail us gsp pmz gen heap p newsize zero hin hnew]
+    · rw [C06L.realloc_zero_moved us gsp pmz gen heap p newsize zero hin hnew] at h
+      exact absurd h hnew
 
 /-- reallocf: on failure the old block is freed (exactly that) -/
 theorem reallocf_frees_on_failure (heap p newsize : Nat) (hp : p ≠ 0)
     (h : (mi_heap_realloc us gsp pmz gen heap p newsize).1 = 0) :
     mi_heap_reallocf us gsp pmz gen heap p newsize = (0, [("mi_free", [p])]) := by
-  sorry
+  have e : mi_heap_realloc us gsp pmz gen heap p newsize = _mi_heap_realloc_zero us gsp pmz gen heap p newsize 0 := by
+    unfold mi_heap_realloc; simp
+  rw [e] at h
+  have h2 := realloc_fail_keeps_old gsp pmz gen us heap p newsize 0 h
+  unfold mi_heap_reallocf
+  rw [e]
+  generalize _mi_heap_realloc_zero us gsp pmz gen heap p newsize 0 = r at h h2
+  obtain ⟨r1, r2⟩ := r
+  simp only at h h2
+  subst h h2
+  simp [hp]
 
 /-- non-vacuity: concrete arguments meeting the overflow hypotheses -/
 example : (2^63 : Nat) < 2^64 ∧ (2 : Nat) < 2^64 ∧ 2^64 ≤ 2^63 * 2 := by decide
